@@ -143,6 +143,8 @@ class HavlinClimateNetwork(ClimateNetwork):
         :return: the correlation strength and maximum lag matrices.
         """
         N = self.N
+        #  NOTE: work on a copy, the anomaly belongs to the (shared) data object
+        anomaly = anomaly.copy()
         self.data.normalize_time_series_array(anomaly)
         anomaly *= self.data.cos_window(anomaly, gamma)
         #  Zero pad windowed data to set the length of each time series to
